@@ -172,6 +172,31 @@ func Corpus12() []*GCase {
 		c.DB = []RefTable{{Table: "ref_t", Column: "c", Vals: [][]byte{B}}}
 		res = append(res, c)
 	}
+	// several rows per log with alternating verdicts: the accumulator starts afresh for every row
+	batch := func(name, ty, agg string, f Flt, g Flt, elems ...Val) *GCase {
+		d := Decl{Name: name, Event: "Batch", Agg: agg, Inputs: []Input{{Name: "vals", Type: ty, Column: "v", Flt: f}},
+			Block: []BD{{Name: "abi_idx", Column: "abi_idx"}, {Name: "log_idx", Column: "log_idx", Flt: g}}}
+		sh := d.SigHash()
+		rev := make([]Val, len(elems))
+		for i := range elems {
+			rev[len(elems)-1-i] = elems[i]
+		}
+		logs := []Log{
+			BuildLog(d, sh, []Val{{IsArr: true, Elems: elems}}, A, 0),
+			BuildLog(d, sh, []Val{{IsArr: true, Elems: rev[1:]}}, B, 1),
+			BuildLog(d, sh, []Val{{IsArr: true, Elems: rev}}, A, 2),
+		}
+		return finish(&GCase{Kind: "corpus-rows-per-log", Decl: d, Blocks: []Block{fixedBlock(1, fixedTx(0, logs, nil))}})
+	}
+	u := uintVal
+	for _, agg := range []string{"", "or", "and"} {
+		res = append(res, batch("b_gt_"+agg, "uint256[]", agg, Flt{Op: "gt", Args: []string{"5"}}, Flt{}, u("10"), u("1"), u("10"), u("5"), u("6")))
+		res = append(res, batch("b_lt2_"+agg, "uint256[]", agg, Flt{Op: "lt", Args: []string{"5"}}, Flt{Op: "eq", Args: []string{"1"}}, u("1"), u("9"), u("4"), u("5")))
+		res = append(res, batch("b_str_"+agg, "string[]", agg, Flt{Op: "eq", Args: []string{"yes", "also"}}, Flt{Op: "ne", Args: []string{"0"}},
+			Val{Str: "yes"}, Val{Str: "also"}, Val{Str: "yes"}, Val{Str: "no"}))
+		res = append(res, batch("b_addr_"+agg, "address[]", agg, Flt{Op: "contains", Args: []string{hx(A)}}, Flt{},
+			Val{Bytes: A}, Val{Bytes: B}, Val{Bytes: A}, Val{Bytes: B}, Val{Bytes: A}, Val{Bytes: B}))
+	}
 	for i, c := range res {
 		if c.Kind == "corpus-pushdown-ref" && i%2 == 0 && Validatable(c) {
 			v := *c
@@ -185,6 +210,9 @@ func Corpus12() []*GCase {
 		}
 	}
 	for _, c := range res {
+		if c.Path == "direct" {
+			continue
+		}
 		d := *c
 		d.Path = "direct"
 		d.Kind = "corpus-filter"
